@@ -97,6 +97,10 @@ def present(vals, fmt, scale=None):
     if fmt == "list" or fmt == "array":
         items = list(vv) if fmt == "list" else np.array(vv)
         return items, None, None     # ids resolved by value matching
+    if fmt == "narrowarray":         # a numpy array of the narrowest unsigned integer dtype that holds every VALUE (sums may exceed it)
+        m = max(vv) if len(vv) else 0
+        dt = np.uint8 if m < 2 ** 8 else (np.uint16 if m < 2 ** 16 else np.uint32)
+        return np.array(vv, dtype=dt), None, None
     if fmt == "dict":
         names = [name_of(i + 1) for i in range(n)]
         assert len(set(names)) == n
